@@ -459,6 +459,11 @@ func (c *ComputedStyle) cascadeValue(key pr.PropKey) (value pr.DeclaredValue, sa
 		}
 	}
 
+	if value == pr.Inherit && c.isRootElement() {
+		// A var() may also resolve to "inherit"
+		value = pr.Initial
+	}
+
 	if value == pr.Initial {
 		value = pr.InitialValues[key.KnownProp]
 		if !pr.InitialNotComputed.Has(key.KnownProp) {
